@@ -679,7 +679,7 @@ class Exec:
             l, r = self.eval(e.left), self.eval(e.right)
             if isinstance(e.op, (ast.Add, ast.Mult, ast.BitOr, ast.Sub, ast.BitAnd)) and (l or r):
                 out = self.fresh(e, self.deepen(l, "*") | self.deepen(r, "*"))
-                if isinstance(e.op, ast.Add) and l and not isinstance(e.left, (ast.List, ast.Tuple, ast.Constant, ast.JoinedStr)) and not isinstance(e.right, (ast.List, ast.Tuple, ast.Constant, ast.JoinedStr)):
+                if isinstance(e.op, ast.Add) and l and not self.listish(e.left) and not self.listish(e.right) and self.maybe_circuit(e.left):
                     # the operands may be repository objects defining __add__
                     for c in self.an.repo.classes.values():
                         if "__add__" in c.methods and c.methods["__add__"].qualname.startswith("qlasskit.qcircuit"):
@@ -969,6 +969,33 @@ class Exec:
         self.eval(f)
         self._unres("<computed callee>")
         return self.fresh(c, kind="unknown")
+
+    def maybe_circuit(self, e) -> bool:
+        """the operand of `+` may be a QCircuit (the only repository class with a working __add__): its class is
+        known, or it is obtained from / named like a circuit (qc, *_qc, *circuit*) - the repository's naming"""
+        c = self.class_of(e)
+        if c is not None:
+            return any(k.name == "QCircuit" for k in c.mro())
+        t = norm(e).lower()
+        return "qc" in t or "circuit" in t
+
+    def listish(self, e) -> bool:
+        """syntactically a builtin sequence / string / number (so `+` is not a repository __add__)"""
+        if isinstance(e, (ast.List, ast.Tuple, ast.Constant, ast.JoinedStr, ast.ListComp, ast.GeneratorExp, ast.Dict, ast.Set)):
+            return True
+        if isinstance(e, ast.BinOp):
+            return self.listish(e.left) or self.listish(e.right)
+        if isinstance(e, ast.Call) and isinstance(e.func, ast.Name) and e.func.id in ("list", "tuple", "str", "sorted", "len", "int", "float", "range", "reversed", "map", "zip"):
+            return True
+        if isinstance(e, ast.Subscript) and isinstance(e.slice, ast.Slice):
+            return True
+        if isinstance(e, ast.Attribute) and e.attr in self.an.builtin_attrs:
+            return True
+        if isinstance(e, ast.Name):
+            v = self.lookup(e.id)
+            if v and all(t[0] == "F" and t[1][3] in CONTAINER_SITES for t in v):
+                return True
+        return False
 
     def mutate_deep(self, v: Value, node, what: str):
         org = self.origin(node, what)
